@@ -45,7 +45,7 @@ def spectrum(rng, N):
     return E, Z
 
 
-def matrix_corr(rng, E, Z, T, asym=0.0, mask=None, rel=0.01, exact=True, weights=None):
+def matrix_corr(rng, E, Z, T, asym=0.0, mask=None, rel=0.01, exact=True, weights=None, scale=1.0):
     """G(t) = Z diag(w(t)) Z^T with w_n(t) = exp(-E_n t), or the given positive weights[t][n] (time-independent overlaps)"""
     N = len(E)
     content = []
@@ -66,6 +66,13 @@ def matrix_corr(rng, E, Z, T, asym=0.0, mask=None, rel=0.01, exact=True, weights
                     a = mk(rng, asym * float(rng.normal()) * abs(val[i, j]), rel=rel)
                     m[i, j] = m[i, j] + a
                     m[j, i] = m[j, i] - a
+        if scale != 1.0:
+            # the overall normalisation of a correlator is arbitrary (entries rescaled as observables: relative precision kept)
+            for i in range(N):
+                for j in range(i, N):
+                    same = m[j, i] is m[i, j]
+                    m[i, j] = m[i, j] * scale
+                    m[j, i] = m[i, j] if same else m[j, i] * scale
         content.append(m)
     return pe.Corr(content)
 
@@ -118,7 +125,8 @@ def gevp_cases(rng, n, ctx, nmax):
                     cur = [int(x) for x in rng.permutation(N)]
                 perm_t[t] = cur
             weights = [np.exp(-E * (t - t0)) if t <= t0 else np.exp(-E[perm_t[t]] * (t - t0)) for t in range(T)]
-        c = matrix_corr(rng, E, Z, T, asym=asym, mask=mask, weights=weights)
+        scale = float(rng.choice([1.0, 1.0, 1e-12, 1e7]))
+        c = matrix_corr(rng, E, Z, T, asym=asym, mask=mask, weights=weights, scale=scale)
         kw = {'sort': sort, 'vector_obs': vector_obs}
         if not vector_obs:
             kw['method'] = method
@@ -128,7 +136,7 @@ def gevp_cases(rng, n, ctx, nmax):
         r = _call(lambda: c.GEVP(t0, **kw))
         G_after = pG(c)
         cid = 'gevp-%04d-N%d-T%d-t0%d-%s-%s-%s%s%s' % (i, N, T, t0, method if not vector_obs else 'obs', sort, 'asym' if asym else 'cross' if crossing else 'sym',
-                                                      '-mask' if any(mask) else '', '-vobs' if vector_obs else '')
+                                                      ('-mask' if any(mask) else '') + ('-scale%g' % scale if scale != 1.0 else ''), '-vobs' if vector_obs else '')
         G = pG(c)
         if i % 2 == 0:
             import json as _json
@@ -197,7 +205,12 @@ def spectrum_cases(rng, n, ctx, nmax):
             # a matrix that is not exactly symmetric is symmetrised first: the antisymmetric part must not leak into the pruned matrix
             asym_in = bool(rng.random() < 0.5)
             cin = matrix_corr(rng, E, Z, T, asym=0.05, rel=1e-6) if asym_in else c
-            pr = _call(lambda: cin.prune(Nt, tproj=tproj, t0proj=t0))
+            # the vectors may come from another correlator matrix with the same overlaps (a base matrix with better statistics, other energies)
+            base = None
+            if rng.random() < 0.4:
+                E2 = np.cumsum(rng.uniform(0.15, 0.3, size=N)) + 0.11
+                base = matrix_corr(rng, E2, Z, T, rel=1e-6)
+            pr = _call(lambda: cin.prune(Nt, tproj=tproj, t0proj=t0) if base is None else cin.prune(Nt, tproj=tproj, t0proj=t0, basematrix=base))
             if isinstance(pr, Exception):
                 cases.append({'id': 'prune-%04d' % i, 'ev': 'spectrum', 'what': 'prune raised ' + type(pr).__name__, 't0': t0, 'E': [rat(float(e)) for e in E[:1]], 'lam': [[{'k': 'x', 'x': 'nan'}]]})
                 continue
@@ -221,7 +234,7 @@ def spectrum_cases(rng, n, ctx, nmax):
                     if isinstance(ev, Exception):
                         row[t0 + 1] = {'k': 'x', 'x': 'nan'}
                     lam.append(row)
-            cases.append({'id': 'prune-%04d-N%d-to%d%s' % (i, N, Nt, '-asym' if asym_in else ''), 'ev': 'spectrum', 'what': 'pruned to %d states' % Nt, 't0': t0,
+            cases.append({'id': 'prune-%04d-N%d-to%d%s' % (i, N, Nt, ('-asym' if asym_in else '') + ('-base' if base is not None else '')), 'ev': 'spectrum', 'what': 'pruned to %d states' % Nt, 't0': t0,
                           'E': [rat(float(e)) for e in E[:Nt]], 'lam': lam})
     return cases
 
